@@ -118,6 +118,11 @@ impl CommitTree {
                     indices_to_prove.as_slice(),
                     leaves_to_prove.as_slice(),
                     *length,
+                ) && self.contains_head(
+                    &leaves,
+                    other_root,
+                    indices_to_prove,
+                    *length,
                 ) {
                     Ok(Comparison::Contains(indices_to_prove.to_vec()))
                 } else {
@@ -127,6 +132,31 @@ impl CommitTree {
                 Ok(Comparison::Unknown)
             }
         }
+    }
+
+    /// A proof of the last leaf (a head proof) stands for the entire
+    /// other tree so the other tree is only contained when its leaves
+    /// are a prefix of the leaves in this tree.
+    ///
+    /// Verifying the proof only attests the leaf at the proven index
+    /// so without this check a diverged tree that happens to hold the
+    /// same leaf at that index would be reported as contained.
+    fn contains_head(
+        &self,
+        leaves: &[TreeHash],
+        other_root: &CommitHash,
+        indices: &[usize],
+        length: usize,
+    ) -> bool {
+        let is_head_proof = indices.len() == 1 && indices[0] + 1 == length;
+        if !is_head_proof {
+            return true;
+        }
+        if leaves.len() < length {
+            return false;
+        }
+        let prefix = MerkleTree::<Sha256>::from_leaves(&leaves[..length]);
+        prefix.root().map(CommitHash).as_ref() == Some(other_root)
     }
 
     /// Compute the first commit state.
